@@ -2,6 +2,8 @@ package progen
 
 import (
 	"fmt"
+	"os"
+	"path/filepath"
 	"strconv"
 	"strings"
 )
@@ -106,10 +108,17 @@ func filewValue(p *Program, io *StageIO, t *T, n int64, dir, tag string, pad *in
 					return Str(link)
 				}
 			}
-		case 4: // a file outside the pipestance
+		case 4, 6: // a file outside the pipestance (6: named relative to the working directory)
 			if io.WriteFile != nil && io.OutsideDir != "" {
 				out := io.OutsideDir + "/" + strings.ReplaceAll(name, "/", "_")
 				io.WriteFile(out, FileContent(out, *pad))
+				if mode == 6 {
+					if wd, err := os.Getwd(); err == nil {
+						if rel, err := filepath.Rel(wd, out); err == nil {
+							return Str(rel)
+						}
+					}
+				}
 				return Str(out)
 			}
 		}
@@ -134,7 +143,7 @@ func filewValue(p *Program, io *StageIO, t *T, n int64, dir, tag string, pad *in
 		if mode == 2 {
 			return Str(dir + "/" + d)
 		}
-		if mode == 4 {
+		if mode == 4 || mode == 6 {
 			// a directory outside the pipestance
 			if io.WriteFile != nil && io.OutsideDir != "" {
 				od := io.OutsideDir + "/" + d
